@@ -181,95 +181,18 @@ def idct_sizes():
     return [(1, 1), (8, 8), (5, 3), (16, 16), (17, 9), (9, 17)]
 
 
-def dev_core(name, shape, obs, sc):
-    n = sc.nbytes()
-    body = "        let mut script: [u8; %d] = nd();\n" % n
-    for off, val in sc.writes():
-        body += "        script[%d] = %d;\n" % (off, val)
-    body += "        dev_core::<%d, %s, %d>(script);\n" % (shape, "true" if obs else "false", n)
-    return ('    #[cfg_attr(kani, kani::proof)]\n    #[cfg_attr(kani, kani::unwind(6))]\n%s'
-            '    #[cfg_attr(kani, kani::stub(f64::ceil, crate::decoder::state::verif_state::ceil64_class1))]\n'
-            '    pub fn %s() {\n%s    }\n' % (CORE_STUBS, name, body))
+def c17_name(cls, shape, idx):
+    return "c17_two_instances_g%d_s%d_%02d" % (cls, shape, idx)
 
 
-def dev_prof(name, stage, sc):
-    n = sc.nbytes()
-    body = "        let mut script: [u8; %d] = nd();\n" % n
-    for off, val in sc.writes():
-        body += "        script[%d] = %d;\n" % (off, val)
-    body += "        dev_prof::<%d, %d>(script);\n" % (stage, n)
-    return ('    #[cfg_attr(kani, kani::proof)]\n    #[cfg_attr(kani, kani::unwind(6))]\n%s'
-            '    #[cfg_attr(kani, kani::stub(f64::ceil, crate::decoder::state::verif_state::ceil64_small))]\n'
-            '    pub fn %s() {\n%s    }\n' % (CORE_STUBS, name, body))
-
-
-def dev_const(name, sc):
-    n = sc.nbytes()
-    body = "        let mut script: [u8; %d] = nd();\n" % n
-    for off, val in sc.writes():
-        body += "        script[%d] = %d;\n" % (off, val)
-    body += "        dev_const::<%d>(script);\n" % (n)
-    return ('    #[cfg_attr(kani, kani::proof)]\n    #[cfg_attr(kani, kani::unwind(6))]\n%s'
-            '    pub fn %s() {\n%s    }\n' % (CORE_STUBS, name, body))
-
-
-def gsize_name(rw, rh, nw, nh):
-    return "c01_gather_ref%dx%d_new%dx%d" % (rw, rh, nw, nh)
-
-
-def gsize(rw, rh, nw, nh):
-    return ('    #[cfg_attr(kani, kani::proof)]\n    #[cfg_attr(kani, kani::unwind(9))]\n'
-            '    #[cfg_attr(kani, kani::stub(f32::ceil, crate::decoder::cpu::gather::verif_gather::ceil32_model))]\n'
-            '    pub fn %s() { gather_sizes_check::<%d, %d, %d, %d>() }\n' % (gsize_name(rw, rh, nw, nh), rw, rh, nw, nh))
-
-
-def gsize_all():
-    return [(16, 16, 16, 16), (8, 8, 16, 16), (16, 16, 8, 8), (1, 1, 16, 16), (16, 16, 1, 1), (17, 9, 9, 17), (5, 3, 5, 3), (1, 1, 1, 1), (16, 8, 16, 16)]
-
-
-def pmb_name(n, pt, umv):
-    return "c01_parse_mb_%dB_%s%s" % (n, ["I", "P", "D"][pt], "_umv" if umv else "")
-
-
-def pmb(n, pt, umv):
-    return ('    #[cfg_attr(kani, kani::proof)]\n    #[cfg_attr(kani, kani::unwind(4))]\n%s'
-            '    pub fn %s() { mb_contract::<%d, %d, %s>() }\n' % (MODEL_STUBS + PICK, pmb_name(n, pt, umv), n, pt, "true" if umv else "false"))
-
-
-def pdisp_name(n):
-    return "c04_disposable_mb_syntax_%dB" % n
-
-
-def pdisp(n):
-    return ('    #[cfg_attr(kani, kani::proof)]\n    #[cfg_attr(kani, kani::unwind(6))]\n%s'
-            '    pub fn %s() { disposable_like_p::<%d>() }\n' % (MODEL_STUBS + PICK, pdisp_name(n), n))
-
-
-def pumv_name(n):
-    return "c01_parse_umv_%dB" % n
-
-
-def pumv(n):
-    return ('    #[cfg_attr(kani, kani::proof)]\n    #[cfg_attr(kani, kani::unwind(4))]\n%s'
-            '    pub fn %s() { umv_contract::<%d>() }\n' % (MODEL_STUBS, pumv_name(n), n))
-
-
-def pblk_name(n, mode, intra):
-    return "c01_parse_block_%dB_%s_%s" % (n, ["std", "sor0", "sor1"][mode], "intra" if intra else "inter")
-
-
-def pblk(n, mode, intra, unwind):
-    return ('    #[cfg_attr(kani, kani::proof)]\n    #[cfg_attr(kani, kani::unwind(%d))]\n%s'
-            '    pub fn %s() { block_contract::<%d, %d, %s>() }\n' % (unwind, MODEL_STUBS + PICK, pblk_name(n, mode, intra), n, mode, "true" if intra else "false"))
-
-
-PICK = '    #[cfg_attr(kani, kani::stub(crate::parser::reader::H263Reader::read_vlc, crate::parser::reader::H263Reader::read_vlc_pick))]\n'
-
-
-def walk_name(table):
-    return "c01_vlc_walk_" + table.lower()
-
-
-def walk(table, depth, module_table_path):
-    return ('    #[cfg_attr(kani, kani::proof)]\n    #[cfg_attr(kani, kani::unwind(%d))]\n%s'
-            '    pub fn %s() { %s(&%s[..], %d) }\n' % (depth + 2, MODEL_STUBS, walk_name(table), "walk" if "TCOEF" not in table else "crate::parser::macroblock::verif_mb::walk", module_table_path, depth))
+def c17(cls, shape, idx, sca, scb):
+    n = max(sca.nbytes(), scb.nbytes())
+    body = "        let mut script_a: [u8; %d] = nd();\n        let mut script_b: [u8; %d] = nd();\n" % (n, n)
+    for off, val in sca.writes():
+        body += "        script_a[%d] = %d;\n" % (off, val)
+    for off, val in scb.writes():
+        body += "        script_b[%d] = %d;\n" % (off, val)
+    body += "        two_instances::<%d, %d, %d>(script_a, script_b);\n" % (cls, n, shape)
+    return ('    /// A: %s | B: %s\n    #[cfg_attr(kani, kani::proof)]\n    #[cfg_attr(kani, kani::unwind(%d))]\n%s'
+            '    #[cfg_attr(kani, kani::stub(f64::ceil, crate::decoder::state::verif_state::ceil64_class%d))]\n'
+            '    pub fn %s() {\n%s    }\n' % (sca.describe(), scb.describe(), max(len(sca.mbs), len(scb.mbs)) + 4, CORE_STUBS, cls, c17_name(cls, shape, idx), body))
